@@ -119,6 +119,29 @@ def _sites (repo, f):
   bufs = set(p for p in params if p in ('raw', 'data', 'buf', 'arr', 'array', 'packed', 'barr'))
   for t, v, st, k in q.stores_in(f.node, nested=False):
     if isinstance(t, ast.Name) and v is not None and isinstance(v, ast.Name) and v.id in bufs: bufs.add(t.id)
+  # a local byte sequence that a loop walks by index (`while i < len(body): ... body[i+1]`): reads beyond the tested position are decided
+  # symbolically - the loop test `i < len(X)` establishes len(X) >= i+1, so `X[i+k]` with k >= 1 needs a stronger guard
+  walked = set()
+  for st_, h_, a_ in g.loop_nodes:
+    if isinstance(st_, ast.While):
+      for x_ in ast.walk(st_.test):
+        if isinstance(x_, ast.Call) and call_name(x_) == 'len' and len(x_.args) == 1 and isinstance(x_.args[0], ast.Name) and x_.args[0].id not in bufs: walked.add(x_.args[0].id)
+  for n in g.nodes:
+    a = n.ast
+    if a is None or n.kind in ('def', 'branch', 'handler', 'for', 'join') or not walked: continue
+    for x in (walk_no_nested(a) if not isinstance(a, (ast.With, ast.If, ast.While, ast.For, ast.Try)) else []):
+      if not (isinstance(x, ast.Subscript) and isinstance(x.ctx, ast.Load) and isinstance(x.value, ast.Name) and x.value.id in walked and not isinstance(x.slice, ast.Slice)): continue
+      idx = q.lin_terms(x.slice)
+      if idx is None or len(idx[0]) != 1 or list(idx[0].values()) != [1] or idx[1] < 1: continue
+      iv = list(idx[0])[0]; L = 'len(%s)' % x.value.id
+      target = ({L: 1, iv: -1}, -idx[1] - 1)                       # len(X) - i - k - 1 >= 0
+      facts = [q.fact_as_ge0(l_, o_, r_) for (l_, o_, r_, b_) in q.guard_facts(g, n) if r_ is not None]
+      rel = [f_ for f_ in facts if f_ is not None and set(f_[0]) == {L, iv}]
+      if not rel or any(q.implies_ge0(f_, target) for f_ in rel): continue
+      if _contained_locally(g, n, 'IndexError'): continue
+      best = max(f_[1] for f_ in rel if f_[0] == target[0]) if any(f_[0] == target[0] for f_ in rel) else None
+      if best is None: continue
+      out.append(Site(f, n, 'index', 'IndexError', None, "index `%s`: the guards establish len(%s) >= %s%+d, the read needs len(%s) >= %s%+d" % (norm(x), x.value.id, iv, -best, x.value.id, iv, idx[1] + 1)))
   def plus (e, k):
     return ast.BinOp(left=e, op=ast.Add(), right=ast.Constant(value=k)) if k else e
   for n in g.nodes:
